@@ -246,13 +246,7 @@ def check_core_plumbing(ctx):
                 probs.append(f"argument {i} of V::unseal is {fmt_n(v)[:120]}, expected {fmt_n(wv)}")
     ctx.add("R02.7", "C02/R02.7/core-unseal", not probs, "; ".join(probs), site_of(g))
 
-def run(ctx):
-    for be in BACKENDS:
-        for purpose in ("Local", "Public"):
-            check_backend(ctx, be, purpose)
-    check_core_plumbing(ctx)
-    # R02.8 (shared with C09 R09.1/R09.2 for the token text form): the bytes that are authenticated are exactly what the text
-    # says — FromStr strips only its own constants and hands the whole remainder to the strict base64 decoder (no trim, no slicing)
+def check_manifest_features(ctx):
     # R02.9: dependency features that relax signature verification must not be enabled by any workspace manifest
     import tomllib, glob as _glob, extract as _ex
     repo = getattr(ctx, "repo", None) or _ex.REPO
@@ -287,6 +281,15 @@ def run(ctx):
             if (d, ft) in enabled:
                 bad.append(f"{os.path.relpath(mf, repo)} enables {d}/{ft}: {why}")
     ctx.add("R02.9", "C02/R02.9/manifest-features", nman >= 8 and not bad, "; ".join(bad) or ("" if nman >= 8 else f"only {nman} manifests found"), None, {"manifests": nman})
+
+def run(ctx):
+    for be in BACKENDS:
+        for purpose in ("Local", "Public"):
+            check_backend(ctx, be, purpose)
+    check_core_plumbing(ctx)
+    # R02.8 (shared with C09 R09.1/R09.2 for the token text form): the bytes that are authenticated are exactly what the text
+    # says — FromStr strips only its own constants and hands the whole remainder to the strict base64 decoder (no trim, no slicing)
+    check_manifest_features(ctx)
     import c09
     class Scratch:
         def __init__(s): s.findings = []; s.world = ctx.world; s.crates = ctx.crates; s.analysed = {"functions": 0, "paths": 0, "call_sites": 0}; s.notes = []; s.tier = ctx.tier
